@@ -8,6 +8,8 @@ pub mod c05;
 pub mod c06;
 pub mod c07;
 pub mod c08;
+pub mod c09;
+pub mod c20;
 
 pub fn property(id: &str) -> Option<Property> {
     match id {
@@ -19,6 +21,8 @@ pub fn property(id: &str) -> Option<Property> {
         "C06" => Some(c06::property()),
         "C07" => Some(c07::property()),
         "C08" => Some(c08::property()),
+        "C09" => Some(c09::property()),
+        "C20" => Some(c20::property()),
         _ => None,
     }
 }
